@@ -3421,8 +3421,11 @@ class DenseIntOrFPElementsAttr(
         Return whether or not this dense attribute is defined entirely
         by a single value (splat).
         """
-        values = self.get_values()
-        return values.count(values[0]) == len(values)
+        # Compare the encoded elements: `==` on the decoded values would identify
+        # 0.0 with -0.0 and never identify a NaN with itself.
+        data = self.data.data
+        element_size = self.get_element_type().compile_time_size
+        return data == data[:element_size] * len(self)
 
     @staticmethod
     def parse_with_type(parser: AttrParser, type: Attribute) -> TypedAttribute:
